@@ -1004,3 +1004,72 @@ pub fn check_c06_info_tool(case: &PipeCase, image: &[u8]) -> Verdict {
     }
     Verdict::Pass
 }
+
+/// C08, low rate: `bigbedtobed --zoom R` (single-threaded converter, in-process) must list the stored zoom records.
+pub fn check_c08_zoom_tool(case: &PipeCase, image: &[u8]) -> Verdict {
+    if case.kind != Kind::Bed {
+        return Verdict::Pass;
+    }
+    let dec = match decode::decode(image) {
+        Ok(d) => d,
+        Err(e) => return viol("undecodable", e),
+    };
+    let Some(z) = dec.zooms.first() else { return Verdict::Pass };
+    let dir = match tempfile::tempdir() {
+        Ok(d) => d,
+        Err(e) => return Verdict::Skip(format!("HARNESS: tempdir: {}", e)),
+    };
+    let big = dir.path().join("in.bb");
+    let outp = dir.path().join("zoom.txt");
+    if std::fs::write(&big, image).is_err() {
+        return Verdict::Skip("HARNESS: scratch write".into());
+    }
+    let res = catch_unwind(AssertUnwindSafe(|| -> Result<(), String> {
+        let r = BigBedRead::open_file(&big).map_err(|e| e.to_string())?;
+        let f = std::fs::File::create(&outp).map_err(|e| e.to_string())?;
+        bigtools::utils::cli::bigbedtobed::write_bed_singlethreaded(r, f, None, None, None, Some(z.reduction)).map_err(|e| e.to_string())
+    }));
+    match res {
+        Err(p) => return viol("reader-panic", format!("bigbedtobed --zoom: {}", panic_message(p))),
+        Ok(Err(e)) => return viol("read-error", format!("bigbedtobed --zoom: {}", e)),
+        Ok(Ok(())) => {}
+    }
+    let text = std::fs::read_to_string(&outp).unwrap_or_default();
+    let mut want: Vec<(String, u32, u32, u32)> = vec![];
+    let mut by_id: Vec<&decode::DChrom> = dec.chroms.iter().collect();
+    by_id.sort_by_key(|c| c.id);
+    // the tool walks the chromosome table in its order (= id order for files written by bigtools)
+    for c in by_id {
+        for r in z.blocks.iter().flatten().filter(|r| r.chrom == c.id) {
+            want.push((c.name.clone(), r.start, r.end, r.valid));
+        }
+    }
+    let got: Vec<(String, u32, u32, u32)> = text
+        .lines()
+        .map(|l| {
+            let f: Vec<&str> = l.split('\t').collect();
+            (
+                f.first().unwrap_or(&"").to_string(),
+                f.get(1).and_then(|x| x.parse().ok()).unwrap_or(u32::MAX),
+                f.get(2).and_then(|x| x.parse().ok()).unwrap_or(u32::MAX),
+                f.get(4).and_then(|x| x.parse().ok()).unwrap_or(u32::MAX),
+            )
+        })
+        .collect();
+    if got != want {
+        let k = got.iter().zip(&want).position(|(a, b)| a != b).unwrap_or(got.len().min(want.len()));
+        return viol(
+            "zoom-tool",
+            format!(
+                "bigbedtobed --zoom {} lists {} records, the level stores {}; first difference at {}: {:?} vs {:?}",
+                z.reduction,
+                got.len(),
+                want.len(),
+                k,
+                got.get(k),
+                want.get(k)
+            ),
+        );
+    }
+    Verdict::Pass
+}
